@@ -786,7 +786,7 @@ func TestVerif_C29_Payload(t *testing.T) {
 	r.SetRule("per case one GET / HEAD / RANGE of an object whose header is (forbidden twin) or is not (allowed twin) matched by a DENY rule of the container eACL for the sender's role; RPC x body variant x object location (local / remote REP node / EC part local / EC parts remote) x filter kind (user attribute, object id, payload length, owner) x TTL x version x payload size; distinct = that tuple; non-trivial = the allowed twin was delivered completely through the same path")
 	r.Assume("real object server + real getsvc.Service + real single-shard engine + real ACL stack; remote storage nodes are scripted gRPC servers that trust container peers")
 	st := vf29OpenStore(t)
-	n := r.Pick(320, 6000)
+	n := r.Pick(240, 6000)
 	judged := map[string]int{}
 	for idx := 0; idx < n; idx++ {
 		c := vf29PGen(r, idx)
